@@ -115,6 +115,10 @@ pub struct ForgeSpec {
     /// magnitudes: narrow accumulators and early exits must still say "reject")
     #[allow(dead_code)]
     pub s1_pattern: Option<(usize, usize, i64)>,
+    /// enlarge s2 (in steps of 128 on random coefficients) until its encoding ends this many bits
+    /// before the end of the signature: 0 = the last coefficient's terminator is the last bit of
+    /// the buffer; the flag asks for a last coefficient of magnitude >= 128
+    pub fill_to_end: Option<(u8, bool)>,
 }
 
 /// Build (signature bytes, public-key bytes) with a prescribed squared norm: pick s2, pick s1 with
@@ -145,6 +149,19 @@ pub fn forge(f: &ForgeSpec) -> Option<(Vec<u8>, Vec<u8>)> {
         }
         if f.neg_zero_last {
             s2[n - 1] = 0;
+        }
+        if let Some((slack, last_big)) = f.fill_to_end {
+            let target = (8 * blen).saturating_sub(slack as usize);
+            let mut first = last_big;
+            while codec::total_bits(&s2) < target {
+                s = mix(s);
+                let i = if first { n - 1 } else { (s % n as u64) as usize };
+                first = false;
+                if s2[i].abs() + 128 > 2047 {
+                    continue;
+                }
+                s2[i] += if s2[i] < 0 || (s2[i] == 0 && s & (1 << 40) != 0) { -128 } else { 128 };
+            }
         }
         if codec::total_bits(&s2) <= 8 * blen && zq::evaluate_at_roots(&s2).iter().all(|&x| x != 0) {
             ok = true;
@@ -366,7 +383,7 @@ impl Sub for VerifyDiff {
             // the non-canonical last coefficient needs 512 spare bits: Falcon-1024 with a short s2
             let wrap_last = noncanon == 1;
             let (n, s2_sigma) = if wrap_last { (1024, 1.0) } else { (n, s2_sigma) };
-            let spec = ForgeSpec { n, msg: msg.clone(), seed, s2_sigma, delta, edge, s2_spike, wrap_last, neg_zero_last: noncanon == 2, s1_pattern: None };
+            let spec = ForgeSpec { n, msg: msg.clone(), seed, s2_sigma, delta, edge, s2_spike, wrap_last, neg_zero_last: noncanon == 2, s1_pattern: None, fill_to_end: None };
             forge(&spec).map(|(sig, pk)| VerifyCase { n, msg: Hex(msg), sig: Hex(sig), pk: Hex(pk) })
         });
         // 4. malformed / arbitrary bodies under an honest key
@@ -400,10 +417,18 @@ impl Sub for VerifyDiff {
         // residue class modulo a small stride, tiny elsewhere - squared norms up to 3.9e10
         let c6 = (prop_oneof![Just(512usize), Just(1024usize)], gen::message_strategy(), any::<u64>(), prop_oneof![Just(1usize), Just(2), Just(4), Just(8), Just(16), Just(3)], 0usize..16, prop_oneof![3 => Just(6144i64), 1 => Just(6143i64), 1 => Just(5793i64), 1 => 2000i64..6144])
             .prop_filter_map("forged-key construction failed", |(n, msg, seed, stride, phase, mag)| {
-                let spec = ForgeSpec { n, msg: msg.clone(), seed, s2_sigma: 1.0, delta: 0, edge: 0, s2_spike: 0, wrap_last: false, neg_zero_last: false, s1_pattern: Some((stride, phase, mag)) };
+                let spec = ForgeSpec { n, msg: msg.clone(), seed, s2_sigma: 1.0, delta: 0, edge: 0, s2_spike: 0, wrap_last: false, neg_zero_last: false, s1_pattern: Some((stride, phase, mag)), fill_to_end: None };
                 forge(&spec).map(|(sig, pk)| VerifyCase { n, msg: Hex(msg), sig: Hex(sig), pk: Hex(pk) })
             });
-        prop_oneof![3 => c1, 30 => c2, 8 => c3, 6 => c4, 1 => c5, 2 => c6].boxed()
+        // 7. valid signatures whose compressed s2 ends 0..9 bits before the end of the buffer (the
+        // last coefficient's terminator on the very last bit, with and without a last coefficient
+        // of magnitude >= 128), at and around the norm bound
+        let c7 = (prop_oneof![Just(512usize), Just(1024usize)], gen::message_strategy(), any::<u64>(), prop_oneof![4 => Just(0u8), 1 => Just(1u8), 1 => Just(7u8), 1 => Just(8u8), 1 => Just(9u8)], any::<bool>(), prop_oneof![3 => Just(0i64), 1 => Just(1i64), 1 => Just(-5_000_000i64)])
+            .prop_filter_map("forged-key construction failed", |(n, msg, seed, slack, last_big, delta)| {
+                let spec = ForgeSpec { n, msg: msg.clone(), seed, s2_sigma: 30.0, delta, edge: 0, s2_spike: 0, wrap_last: false, neg_zero_last: false, s1_pattern: None, fill_to_end: Some((slack, last_big)) };
+                forge(&spec).map(|(sig, pk)| VerifyCase { n, msg: Hex(msg), sig: Hex(sig), pk: Hex(pk) })
+            });
+        prop_oneof![3 => c1, 30 => c2, 8 => c3, 6 => c4, 1 => c5, 2 => c6, 2 => c7].boxed()
     }
 
     fn check(&self, c: &VerifyCase, st: &mut Stats) -> Result<(), Fail> {
